@@ -103,6 +103,7 @@ class Registry:
         self.syntactic = []
         self.replays = {}
         self.records = {}
+        self.value_records = set()
 
     def contract(self, fq, **kw):
         c = Contract(fq, **kw)
@@ -119,6 +120,11 @@ class Registry:
     def record(self, clsname, ty):
         """A NamedTuple / frozen dataclass of the repo represented by value as the SMT datatype `ty`."""
         self.records[clsname] = ty
+
+    def value_record(self, ty):
+        """A mutable class of a dependency represented BY VALUE (fields assigned through a local variable update that
+        variable).  Only sound where the object is not observed through another alias after the mutation."""
+        self.value_records.add(ty.name)
 
     def inline(self, fq):
         """Small helper of the repo that is symbolically inlined at call sites instead of having a contract."""
